@@ -278,4 +278,52 @@ theorem slices_agree (op : String) (p : Params) (h : Admissible op p) (l : List 
 example : isOkWith (sliceAvx "middle_assign" { b := 12, lsh := 3 } [(1, 0, 0), (2, 0, 0), (3, 0, 0), (4, 0, 0), (100000, 0, 2047)])
     [(8, 0), (16, 0), (24, 0), (32, 0), (-769, 196)] = true := by decide
 
+/-! ### NTT120 family: `i128` slice arithmetic (`ntt120/vec_znx_big_avx.rs`, `impl I128BigOps for NTT120Avx`) -/
+
+/-- every `vi128_*_avx2` kernel, on one element held as two 64-bit lanes `(lo, hi)`, is the wrapping
+`i128` operation of the default (`NTT120Ref`) implementation — all 15 kernels, all inputs -/
+theorem i128_big_ops_eq (op : String) : vecLaneBig op = refLaneBig op := by
+  unfold vecLaneBig refLaneBig
+  split <;> simp only [Option.some.injEq] <;> try rfl
+  all_goals
+    funext r a b
+    simp only [extW, ext4_eq, ext4_fst, ext4_snd, add4_eq, sub4_eq, neg4_eq]
+example : (vecLaneBig "i128_sub_small_a").map (fun f => f 0 5#128 (-1#128)) = some 6#128
+    ∧ (vecLaneBig "i128_add").map (fun f => f 0 (0xFFFFFFFFFFFFFFFF#128) 1#128) = some (0x10000000000000000#128) := by decide
+
+/-- slice level: `n / 4` chunks through the split-lane kernels + scalar tail = the scalar loop -/
+theorem i128_big_slices_agree (op : String) (l : List (W128 × W128 × W128)) : sliceBigAvx op l = sliceBigRef op l := by
+  unfold sliceBigAvx sliceBigRef
+  rw [i128_big_ops_eq op]
+  cases refLaneBig op with
+  | none => rfl
+  | some f => simp only [runBig, ← List.map_append, List.take_append_drop]
+example : isOkWith (sliceBigAvx "i128_negate" [(0, 1, 0), (0, 0, 0), (0, -1, 0), (0, 5, 0), (0, 1 <<< 127, 0)])
+    [-1, 0, 1, -5, 1 <<< 127] = true := by decide
+
+/-- `sra_epi64` (the `srai_epi64` emulation: dword shuffle + `srai_epi32` sign mask + logical shift) is
+the arithmetic shift for every count 0 … 64 -/
+theorem sra_epi64_is_arithmetic_shift (v : W) (imm : BitVec 32) (h : imm ≤ 64#32) :
+    Vec128.sra_epi64 v imm = (if imm = 64#32 then v.sshiftRight 63 else v.sshiftRight' (imm.zeroExtend 64)) :=
+  sra_epi64_eq v imm h
+example : Vec128.sra_epi64 (-8#64) 2#32 = -2#64 ∧ Vec128.sra_epi64 (-8#64) 64#32 = -1#64 ∧ Vec128.sra_epi64 8#64 0#32 = 8#64 := by
+  decide
+
+/-! ### FFT64 vs NTT120: the rounding shift of the cross-radix normalisation
+
+Found by this check and repaired in /repo (eb1c1ea): `nfc_mul_pow2_assign` floored (`>>`) where
+`znx_mul_power_of_two_assign_ref` rounds, so cross-radix `vec_znx_big_normalize` differed by one unit of
+the last limb between the families.  For the repaired code: -/
+
+theorem mul_pow2_fft64_ntt120_agree (k v : W) (h1 : BitVec.sle (-63#64) k = true) (h2 : BitVec.slt k 0#64 = true)
+    (hv : BitVec.sle (-(1#64 <<< 62)) v = true ∧ BitVec.slt v (1#64 <<< 62) = true) :
+    (Ref.mulPow2Val k v).signExtend 128 = Ref128.mulPow2Assign k (v.signExtend 128) := mulPow2_i64_i128 k v h1 h2 hv
+-- the witness on which the unrepaired code differed (floor 0, round 1)
+example : Ref128.mulPow2Assign (-1#64) 1#128 = 1#128 ∧ Ref.mulPow2Val (-1#64) 1#64 = 1#64 := by decide
+/-- without head-room the `i64` kernel wraps and the families differ: the magnitude-domain clause of the
+property is necessary -/
+theorem mul_pow2_fft64_ntt120_headroom_needed :
+    (Ref.mulPow2Val (-1#64) 0x7FFFFFFFFFFFFFFF#64).signExtend 128
+      ≠ Ref128.mulPow2Assign (-1#64) ((0x7FFFFFFFFFFFFFFF#64).signExtend 128) := by decide
+
 end C10
